@@ -448,6 +448,49 @@ class TagSoupSystem(System):
         return check_soup(text)
 
 
+VOIDS = ["area", "base", "br", "col", "embed", "hr", "img", "input", "link", "meta", "param", "source", "track", "wbr"]
+
+
+class VoidSystem(System):
+    """every HTML void element, written without an end tag, in every position of a small document"""
+
+    name = "void-elements"
+
+    def __init__(self, tier):
+        super().__init__(tier)
+        self.description = (f"{len(VOIDS)} void elements x 4 attribute forms x 5 positions (alone, between text, nested, before a sibling, two in a row): "
+                            "exact round trip, no children, the following sibling stays a sibling")
+
+    def bounds(self):
+        return {"void_elements": len(VOIDS)}
+
+    def alphabet(self):
+        return VOIDS
+
+    def rule(self):
+        return "one case = (void element, attribute form, position); non-trivial = always"
+
+    def cases(self):
+        for v in VOIDS:
+            for a in ("", ' k="v"', ' name="a" value="1"', " disabled"):
+                for pos in range(5):
+                    yield [v, a, pos]
+
+    def run(self, case):
+        v, a, pos = case
+        tag = f"<{v}{a}>"
+        text = [tag, f"x{tag}y", f"<p>{tag}t</p>", f"<div>{tag}<b>s</b></div><i>j</i>", f"<object>{tag}{tag}</object>"][pos]
+        obs = check_soup(text)
+        viol = list(obs.violations)
+        root = tokenize_html(text)
+        if str(root) != text:
+            viol.append(violation("roundtrip", {"clause": "roundtrip", "cause": "void-element"}, f"render(parse(s)) = {str(root)!r} != s = {text!r}", text=text))
+        for e in root.walk():
+            if getattr(e, "name", None) == v and len(list(e.children if hasattr(e, "children") else [])) != 0:
+                viol.append(violation("structure", {"clause": "structure", "cause": "void-element-has-children"}, f"void element <{v}> got children in {text!r}", text=text))
+        return Obs(digest=(text, str(root)), nontrivial=True, violations=viol[:3])
+
+
 MARKED = ["<![", "if", "endif", "else", "CDATA", "cdata", "temp", "include", "ignore", "rcdata", "x", "2", " ", "[", "]", "]>", "]]>", "--", ">", "IE"]
 
 
@@ -537,6 +580,7 @@ def systems(tier):
     out.append(HistorySystem(tier))
     out.append(TagSoupSystem(tier))
     out.append(MarkedSoupSystem(tier))
+    out.append(VoidSystem(tier))
     return out
 
 
